@@ -175,12 +175,28 @@ func (s *SimEnv) PeerClose(p *simPeer) error {
 	return s.env.Readable(p.vc)
 }
 
+// drainAll reads everything the proxy has written and plays the part of epoll for backlogged connections: while a
+// connection has bytes in its outbound buffer (the kernel did not take them all), the peer is drained and the proxy
+// gets a writable event, until the backlog is gone. The model's byte streams are "everything produced so far";
+// C19_conn_stream is what says that wire ++ backlog is exactly that.
 func (s *SimEnv) drainAll() {
-	for _, p := range s.clients {
-		p.drain()
-	}
-	for _, p := range s.backends {
-		p.drain()
+	for round := 0; round < 4096; round++ {
+		for _, p := range s.clients {
+			p.drain()
+		}
+		for _, p := range s.backends {
+			p.drain()
+		}
+		backlog := false
+		for _, p := range append(append([]*simPeer{}, s.clients...), s.backends...) {
+			if p.vc != nil && !p.closed && p.vc.Opened() && p.vc.OutboundBuffered() > 0 {
+				backlog = true
+				_ = s.env.Writable(p.vc)
+			}
+		}
+		if !backlog {
+			return
+		}
 	}
 }
 
